@@ -14,3 +14,7 @@ func Reboot()                       {}
 func TempResidue(base string) int   { return 0 }
 
 func InstallTempFiles() {}
+
+var WorkDir = "/work"
+
+func InstallDirListing() {}
